@@ -120,7 +120,9 @@ func FindAnchors(prog *Program) *Anchors {
 				a.GetValue = f
 			}
 		case sig.Params().Len() == 1 && namedIs(p0, "reflect", "Kind") && sig.Results().Len() == 1:
-			if _, ok := sig.Results().At(0).Type().Underlying().(*types.Signature); ok && a.EqTable == nil {
+			// the table of comparators: func(reflect.Kind) func(literal interface{}, value reflect.Value) bool
+			if rs, ok := sig.Results().At(0).Type().Underlying().(*types.Signature); ok && a.EqTable == nil &&
+				rs.Params().Len() == 2 && isEmptyIface(rs.Params().At(0).Type()) && namedIs(rs.Params().At(1).Type(), "reflect", "Value") && rs.Results().Len() == 1 && isBool(rs.Results().At(0).Type()) {
 				a.EqTable = f
 			}
 		case sig.Params().Len() == 2 && namedIs(p0, grammarPath, "MatchExpression") && namedIs(sig.Params().At(1).Type(), "reflect", "Kind") &&
